@@ -46,7 +46,7 @@ def run(name):
             subprocess.call(["git","-C","/repo","worktree","remove","--force",wt],stdout=subprocess.DEVNULL,stderr=subprocess.DEVNULL)
             shutil.rmtree(wt, ignore_errors=True)
     return name, base_viol, out
-with ThreadPoolExecutor(6) as ex:
+with ThreadPoolExecutor(int(os.environ.get("JOBS","6"))) as ex:
     res = list(ex.map(run, seeded))
 subprocess.call(["git","-C","/repo","worktree","prune"])
 lost = 0; n = 0
